@@ -51,7 +51,7 @@ def structural():
                                                        "b2": ("buf", ["n3"]), "n4": ("not", ["b2"]), "n5": ("not", ["n4"]), "o": ("or", ["n2", "n5"])}, ["o", "n2", "n3", "b2"])
     yield "chain-declared-downstream-first", {"chains"}, _b({"o": ("xor", ["n3", "a"]), "n3": ("not", ["n2"]), "n2": ("buf", ["n1"]), "n1": ("not", ["g"]), "g": ("nor", ["a", "b"]), "a": I, "b": I}, ["o", "n2"])
     # distinct operand sets whose names join to one string ({a_b, c} / {a, b_c}), under gates of one type - and exact duplicates
-    yield "operand-names-joining-ambiguously", {"names2", "shared"}, _b({"a": I, "b_c": I, "a_b": I, "c": I, "g1": ("and", ["a_b", "c"]), "g2": ("and", ["a", "b_c"]), "x1": ("xor", ["a_b", "c"]),
+    yield "operand-names-joining-ambiguously", {"names2", "joining", "shared"}, _b({"a": I, "b_c": I, "a_b": I, "c": I, "g1": ("and", ["a_b", "c"]), "g2": ("and", ["a", "b_c"]), "x1": ("xor", ["a_b", "c"]),
                                                                         "x2": ("xor", ["a", "b_c"]), "d1": ("nor", ["a", "c"]), "d2": ("nor", ["c", "a"]), "o": ("or", ["g1", "x2", "d1"])}, ["o", "g2", "x1", "d2"])
     yield "x-constant", {"x"}, _b({"a": I, "u": ("x", []), "g": ("or", ["a", "u"])}, ["g"])
 
